@@ -54,6 +54,7 @@ DEFAULT_KNOBS = dict(
     first_closed=0.0,
     version_on_suspend=0.7,
     dyadic=False,  # prices/sizes/spacings exactly representable (boundary scenarios)
+    removal_plan=None,  # [(runner index, adjustment factor)] forces these removals
 )
 
 
@@ -253,14 +254,24 @@ def gen_market(rng, idx, knobs=None, t0=None, event_id=None):
     runners = {s: RunnerModel(rng, s, line=line, dyadic=dyadic) for s in sels}
     # adjustment factors (sum ~100 in WIN markets)
     raw = [rng.uniform(1, 10) for _ in sels]
+    # a market either publishes adjustment factors for all runners or for none of them
+    has_factors = not (k.get("removal_plan") and any(af is None for _, af in k["removal_plan"])) and rng.random() < 0.93
     for s, w in zip(sels, raw):
-        runners[s].af = r2(100 * w / sum(raw))
+        runners[s].af = r2(100 * w / sum(raw)) if has_factors else None
 
     # plan market-level events
     has_inplay = rng.random() < k["p_inplay"] and n_updates >= 6
     i_inplay = rng.randint(n_updates // 2, n_updates - 2) if has_inplay else None
     removals = {}
-    if n_runners >= 2 and rng.random() < k["p_removal"]:
+    removal_af = {}
+    if k.get("removal_plan"):
+        for ridx, af in k["removal_plan"]:
+            if ridx < n_runners and n_runners >= 2:
+                j = rng.randint(1, max(1, n_updates - 2))
+                if j not in removals:
+                    removals[j] = sels[ridx]
+                    removal_af[sels[ridx]] = af
+    elif n_runners >= 2 and rng.random() < k["p_removal"]:
         for _ in range(rng.choice([1, 1, 2]) if n_runners >= 3 else 1):
             j = rng.randint(1, max(1, n_updates - 2))
             removals.setdefault(j, rng.choice(sels))
@@ -297,7 +308,12 @@ def gen_market(rng, idx, knobs=None, t0=None, event_id=None):
             s = removals[j]
             rm = runners[s]
             rm.status = "REMOVED"
-            rm.af = rng.choice([None, 0.0, 1.0, 2.49, 2.5, 2.51, 10.0, 33.3, 60.0, rm.af])
+            if not has_factors:
+                rm.af = None
+            elif s in removal_af and removal_af[s] is not None:
+                rm.af = removal_af[s]
+            else:
+                rm.af = rng.choice([0.0, 1.0, 2.49, 2.5, 2.51, 10.0, 33.3, 60.0, rm.af])
             removed.add(s)
             state["ver"] += 1
             if rng.random() < 0.5 and state["st"] == "OPEN":
